@@ -150,6 +150,10 @@ pub fn scan_forward(db: &DB, snapshot: Option<Snapshot>) -> Result<Vec<(Vec<u8>,
         out.push((k.clone(), v.clone()));
         it.next();
     }
+    // an iterator that turned invalid may have failed rather than run out of entries
+    if let Some(e) = it.status() {
+        return Err(ScanError::Err(e));
+    }
     drop(it);
     for w in out.windows(2) {
         if w[0].0 >= w[1].0 {
@@ -168,6 +172,9 @@ pub fn scan_backward(db: &DB, snapshot: Option<Snapshot>) -> Result<Vec<(Vec<u8>
         let (k, v) = it.current().unwrap();
         out.push((k.clone(), v.clone()));
         it.prev();
+    }
+    if let Some(e) = it.status() {
+        return Err(ScanError::Err(e));
     }
     drop(it);
     out.reverse();
